@@ -82,8 +82,10 @@ func (t *AppendOnlyTree) AddLeaf(tx dbtypes.Txer, blockNum, blockPosition uint64
 	}
 	t.lastIndex++
 	tx.AddRollbackCallback(func() {
-		log.Debugf("decreasing index due to rollback")
-		t.lastIndex--
+		// The leaves added in the rolled back tx have overwritten entries of lastLeftCache,
+		// so decreasing the index is not enough: force the cache to be rebuilt from the DB
+		log.Debugf("invalidating cache due to rollback")
+		t.lastIndex = -2
 	})
 	return nil
 }
